@@ -157,6 +157,17 @@ Qed.
 Lemma version_exact line : stored_version line = line.
 Proof. reflexivity. Qed.
 
+(* ---- connect(hostkey=...) goes on to authenticate only towards exactly the pinned key -------- *)
+Lemma pinned_key_exact sn pn sb pb :
+  connect_pin sn pn sb pb = Ok tt <-> (sn = pn /\ sb = pb).
+Proof.
+  unfold connect_pin, pin_rejects, pin_combine. split.
+  - destruct (zlist_eqb sn pn) eqn:A, (zlist_eqb sb pb) eqn:B; cbn; try discriminate.
+    intros _. apply zlist_eqb_eq in A. apply zlist_eqb_eq in B. auto.
+  - intros [-> ->]. assert (E : forall l, zlist_eqb l l = true) by (intros l; now apply zlist_eqb_eq).
+    rewrite !E. reflexivity.
+Qed.
+
 (* ---- _set_K_H and the session-id latch ------------------------------------------------------- *)
 Lemma setkh_K st k h : s_K (set_K_H st k h) = Some (PInt k).
 Proof. destruct st as [a b [c|] d]; reflexivity. Qed.
